@@ -451,6 +451,120 @@ Section ArrivalStream.
   Qed.
 End ArrivalStream.
 
+(* ================================================================== 6. C03: every delivered event is justified *)
+Lemma justified_created (root : bytes) (recs : list oprec) (x : bytes) (v : bool) (rc : oprec) :
+  is_nil x || beqb x root || in_scope true root x = true -> In rc recs -> o_op rc = (if v then Mkdir x else Touch x) ->
+  justified true root recs (mk (created_cls v) x []) = true.
+Proof.
+  intros Hs Hrc Erc. unfold justified. destruct v; cbn [mk created_cls ev_cls ev_src ev_dest ev_synth what_of]; cbv zeta; rewrite Hs;
+    cbn [is_nil orb andb]; apply existsb_exists; exists rc; (split; [exact Hrc|]); rewrite Erc, beqb_refl; reflexivity.
+Qed.
+
+Lemma justified_parent (root : bytes) (recs : list oprec) (x : bytes) (v : bool) (rc : oprec) :
+  is_nil (dirname x) || beqb (dirname x) root || in_scope true root (dirname x) = true -> In rc recs ->
+  o_op rc = (if v then Mkdir x else Touch x) ->
+  justified true root recs (parent_modified x) = true.
+Proof.
+  intros Hs Hrc Erc. unfold justified, parent_modified. cbn [mk ev_cls ev_src ev_dest ev_synth what_of]. cbv zeta. rewrite Hs.
+  cbn [is_nil orb andb]. apply existsb_exists. exists rc. split; [exact Hrc|]. rewrite Erc. destruct v; cbn [op_p]; apply beqb_refl.
+Qed.
+
+Section ArrivalTheorems.
+  Variable C : cfg.
+  Variable full : bool.
+  Hypothesis Hfaults : c_faults C = [].
+  Hypothesis Hsim : c_fix_simulate C = true.
+
+  Lemma scope_ok_of x : c_recursive C = true -> scope C x ->
+    is_nil x || beqb x (c_root C) || in_scope true (c_root C) x = true.
+  Proof.
+    intros Hrec Sx. unfold scope in Sx. rewrite Hrec in Sx. destruct Sx as [->|U].
+    - now rewrite beqb_refl, orb_true_r.
+    - unfold in_scope. rewrite U. cbn [orb andb]. now rewrite orb_true_r.
+  Qed.
+
+  (* SOUNDNESS of the arrival burst: every delivered event is justified by an operation of the burst.  (Contract EQUALITY does
+     not hold for this burst: the stream follows the walk order, not the order of the operations - all sub-directories of a
+     directory before its files, a directory's content after its siblings - and the created events of the walk carry their
+     parent's DirModified once per entry, whereas operation-by-operation delivery interleaves them differently.) *)
+  Theorem arrival_sound w k r p rest : RSync C w k r -> npath p -> c_recursive C = true -> scope C p ->
+    N.land IN_CREATE (c_mask C) <> 0%N -> Forall (below_op p) rest ->
+    forall w1, apply_op w (Mkdir p) = Some w1 ->
+    let KB := fst (burst_end k w (Mkdir p :: rest)) in let wn := snd (burst_end k w (Mkdir p :: rest)) in
+    exists r' k' raws, read_batch C (w_fs wn) (r, drainq KB, []) (k_queue KB) = Done (r', k', raws) /\ RSync C wn k' r' /\
+      forallb (justified (c_recursive C) (c_root C) (burst_recs w (Mkdir p :: rest))) (ReplayProofs.delivered C full wn raws) = true.
+  Proof.
+    intros S Np Hrec Sp Hm Hrest w1 Ha KB wn.
+    destruct (arrival_raws C Hfaults Hsim w k r p rest S Np Hrec Sp Hm Hrest w1 Ha)
+      as (r' & k' & raws & Hrd & S' & G & Hold & Hpr & Fc & HL).
+    fold wn in Hrd, S', G, HL. exists r', k', raws. split; [exact Hrd|]. split; [exact S'|].
+    rewrite (delivered_creates C full wn raws Fc). apply forallb_forall. intros ev Hev.
+    apply in_flat_map in Hev as ([x v] & Hxv & Hev). apply HL in Hxv as (e & He & Ee & De & Hb).
+    assert (Wn := rs_wf _ _ _ _ S').
+    assert (Hnew : ~ In e (w_fs w)).
+    { intros Hin. destruct (Hold e Hin) as [A B]. rewrite Ee in A, B. destruct Hb as [Hb|Hb]; [now apply A | congruence]. }
+    assert (Hadd : Forall add_op (Mkdir p :: rest)).
+    { constructor; [exact I|]. eapply Forall_impl; [|exact Hrest]. apply below_add. }
+    destruct (burst_new (Mkdir p :: rest) Hadd k w e He) as [Hin|(rc & Hrc & Erc)]; [contradiction|].
+    rewrite Ee, De in Erc.
+    assert (Sx : scope C x) by (destruct Hb as [->|Ux]; [exact Sp | now apply (scope_under C p)]).
+    assert (Nx : npath x) by (rewrite <- Ee; exact (wf_np wn Wn e He)).
+    assert (Hxr : x <> c_root C).
+    { intros E. destruct (rs_root _ _ _ _ S) as (er & Her & Eer & _). destruct (Hold er Her) as [A B]. rewrite Eer in A, B.
+      destruct Hb as [Hb|Hb]; [apply A; congruence | congruence]. }
+    destruct (scope_parent C x Nx Sx Hxr) as [Sd _].
+    rewrite Hrec. cbn [create_events fst snd] in Hev. destruct Hev as [<-|[<-|[]]].
+    - exact (justified_created _ _ x v rc (scope_ok_of x Hrec Sx) Hrc Erc).
+    - exact (justified_parent _ _ x v rc (scope_ok_of _ Hrec Sd) Hrc Erc).
+  Qed.
+
+  (* C01: replaying the delivered stream on a tree that agrees with the world before the burst gives the tree after it *)
+  Lemma freplays_creates rec root L : forall g,
+    freplays rec root g (flat_map create_events L) = fputs rec root L g.
+  Proof.
+    induction L as [|[x v] L IH]; intros g; [reflexivity|].
+    cbn [flat_map create_events app fst snd]. unfold freplays, fputs. cbn [fold_left fst snd].
+    change (mk (created_cls v) x []) with (mkC false (x, v)). rewrite fr_mkC, fr_pm. cbn [fst snd]. apply IH.
+  Qed.
+
+  Theorem arrival_replay w k r p rest t : RSync C w k r -> npath p -> c_recursive C = true -> scope C p ->
+    N.land IN_CREATE (c_mask C) <> 0%N -> Forall (below_op p) rest ->
+    forall w1, apply_op w (Mkdir p) = Some w1 ->
+    TInv (c_recursive C) (c_root C) t w ->
+    let KB := fst (burst_end k w (Mkdir p :: rest)) in let wn := snd (burst_end k w (Mkdir p :: rest)) in
+    exists r' k' raws, read_batch C (w_fs wn) (r, drainq KB, []) (k_queue KB) = Done (r', k', raws) /\ RSync C wn k' r' /\
+      TInv (c_recursive C) (c_root C) (replay (c_recursive C) (c_root C) t (ReplayProofs.delivered C full wn raws)) wn.
+  Proof.
+    intros S Np Hrec Sp Hm Hrest w1 Ha [Tn Tg] KB wn.
+    destruct (arrival_raws C Hfaults Hsim w k r p rest S Np Hrec Sp Hm Hrest w1 Ha)
+      as (r' & k' & raws & Hrd & S' & [G1 G2] & Hold & Hpr & Fc & HL).
+    fold wn in Hrd, S', G1, G2, HL. exists r', k', raws. split; [exact Hrd|]. split; [exact S'|].
+    assert (W := rs_wf _ _ _ _ S). assert (Wn := rs_wf _ _ _ _ S').
+    split; [now apply replay_nodup|].
+    rewrite (delivered_creates C full wn raws Fc).
+    intros y. rewrite (replay_sem_list (c_recursive C) (c_root C) _ t (tl (c_recursive C) (c_root C) w) Tn Tg y).
+    rewrite freplays_creates. rewrite !tlw_fdl.
+    destruct (in_scope (c_recursive C) (c_root C) y) eqn:Iy; [|now rewrite fputs_noins, tlw_fdl, Iy].
+    unfold fdl at 1. destruct (flookup y (w_fs wn)) as [e|] eqn:El.
+    - destruct (flookup_some _ _ _ El) as [He Ee]. cbn [option_map].
+      destruct (G2 e He) as [Hin|[Hb _]].
+      + (* an old entry: untouched *)
+        rewrite fputs_other.
+        * rewrite tlw_fdl, Iy. unfold fdl. rewrite <- Ee, (flookup_in _ e (wf_paths _ W) Hin). reflexivity.
+        * intros v Hv. apply HL in Hv as (e' & _ & _ & _ & Hb). destruct (Hold e Hin) as [A B]. rewrite Ee in A, B.
+          destruct Hb as [Hb|Hb]; [now apply A | congruence].
+      + (* an arrived entry: its create record *)
+        rewrite Ee in Hb. apply fputs_hit; [exact Iy| |].
+        * intros v Hv. apply HL in Hv as (e' & He' & Ee' & <- & _). f_equal.
+          apply (path_inj (w_fs wn)); [apply Wn | exact He' | exact He | congruence].
+        * left. exists (f_dir e). apply HL. exists e. auto.
+    - cbn [option_map]. rewrite fputs_other.
+      + rewrite tlw_fdl, Iy. unfold fdl. destruct (flookup y (w_fs w)) as [e|] eqn:E0; [|reflexivity].
+        destruct (flookup_some _ _ _ E0) as [He Ee]. apply G1 in He. rewrite <- Ee, (flookup_in _ e (wf_paths _ Wn) He) in El. discriminate.
+      + intros v Hv. apply HL in Hv as (e & He & Ee & _). rewrite <- Ee, (flookup_in _ e (wf_paths _ Wn) He) in El. discriminate.
+  Qed.
+End ArrivalTheorems.
+
 (* the statement of Props/C02.v *)
 Theorem burst_arrival_cover C w k r p rest : c_faults C = [] -> c_fix_simulate C = true ->
   RSync C w k r -> npath p -> c_recursive C = true -> scope C p -> N.land IN_CREATE (c_mask C) <> 0%N ->
